@@ -161,15 +161,35 @@ def _isel(run, P):
     c = f"{f.key}:grid-dim-routing"
     src = f.node
     routes = {}
+    generic = False      # self.uxgrid.isel(**{d: kwargs[d]}) : dimension and indexer are the same expression, whatever d is
+    unknown = []
+    probs = []
     for n in ast.walk(src):
         if isinstance(n, ast.Call) and isinstance(n.func, ast.Attribute) and n.func.attr == "isel" and norm(n.func.value) == "self.uxgrid":
             for k in n.keywords:
-                keys = [x.value for x in ast.walk(k.value) if isinstance(x, ast.Constant) and isinstance(x.value, str)]
-                routes[k.arg] = keys
-    probs = []
+                if k.arg is not None:
+                    keys = [x.value for x in ast.walk(k.value) if isinstance(x, ast.Constant) and isinstance(x.value, str)]
+                    routes[k.arg] = keys
+                elif isinstance(k.value, ast.Dict) and len(k.value.keys) == 1 and k.value.keys[0] is not None:
+                    dk, dv = k.value.keys[0], k.value.values[0]
+                    if isinstance(dv, ast.Subscript) and norm(dv.value) == "kwargs" and norm(dv.slice) == norm(dk):
+                        if isinstance(dk, ast.Constant):
+                            routes[dk.value] = [dk.value]
+                        else:
+                            generic = True
+                    elif isinstance(dk, ast.Constant) and isinstance(dv, ast.Subscript) and isinstance(dv.slice, ast.Constant):
+                        routes[dk.value] = [dv.slice.value]
+                    else:
+                        unknown.append(norm(n)[:70])
+                else:
+                    unknown.append(norm(n)[:70])
+            if n.args:
+                unknown.append(norm(n)[:70])
     for d in ("n_node", "n_edge", "n_face"):
-        if routes.get(d) != [d]:
+        if d in routes and routes[d] != [d]:
             probs.append(f"{d} is sliced on the grid with the indexer of {routes.get(d)}")
+        elif d not in routes and not generic:
+            (unknown if unknown else probs).append(f"no slicing of the grid along {d} found")
     uses = any(isinstance(n, ast.Call) and isinstance(n.func, ast.Attribute) and n.func.attr == "_slice_from_grid" for n in ast.walk(src))
     if not uses:
         probs.append("the data are not sliced from the sliced grid (_slice_from_grid)")
@@ -179,6 +199,8 @@ def _isel(run, P):
         probs.append("positional `indexers` are not merged with the keyword indexers: isel({'n_face': ...}) bypasses the grid")
     if probs:
         run.violation("F-PATH/isel-grid-dims", c, where(f), "; ".join(probs))
+    elif unknown:
+        run.incomplete("F-PATH/isel-grid-dims", c, where(f), "idiom not recognised: " + "; ".join(unknown))
     else:
         run.holds("F-PATH/isel-grid-dims", c, where(f), "indexers (positional or keyword) over a grid dimension slice the grid of that dimension and the data from the sliced grid")
 
